@@ -11,7 +11,7 @@ def run(R, job):
     fails, checked, distinct, samples = [], 0, set(), []
     toks = ["a", "b", "ab", "a-b", "b-a", "btn", "btn-primary", "x", "é", "&q"]
     for _ in range(n):
-        init = r.choice([None, "", "a", "a b", " a  b ", "ab a", "a a b", "btn btn-primary"])
+        init = r.choice([None, "", "a", "a b", " a  b ", "ab a", "a a b", "btn btn-primary", "a\tb", "btn\n   btn-primary\tx", "\tab  a\n"])
         t = core.Tag("div") if init is None else core.Tag("div", class_=init)
         model = (init or "").split()
         log = [f"class={init!r}"]
